@@ -391,6 +391,8 @@ def layouts(repo: Repo, chk: Check) -> None:
             ok3 = ps.text(w1) == "ASN1Writer()" and ps.text(w2) == "ASN1Writer()" and ps.key(w1) != ps.key(w2) and cc is not None and ps.key(cc) == f"{ps.key(w1)}.get_data#{getattr(cc, '_uid', 0)}()"
             if len(el) == 2:
                 e0 = el[0]
+                while isinstance(e0, ast.Call) and isinstance(e0.func, ast.Name) and e0.func.id in ("bytes", "bytearray") and len(e0.args) == 1 and not e0.keywords:
+                    e0 = e0.args[0]  # bytes(x) of a bytes-like x is x
                 okt = isinstance(e0, ast.Call) and isinstance(e0.func, ast.Attribute) and e0.func.attr == "get_data" and ps.key(e0.func.value) == ps.key(w2) and ps.text(el[1]) == ("b''" if inside else "self.enc_content")
         chk.ob("O3", Site.of(fp, construct="nesting"), ok3, "EnvelopedData DER (own writer) becomes ContentInfo.content, ContentInfo is written with a fresh writer")
         chk.ob("O4", site, okt, "content trails the ContentInfo iff not blob_in_envelope" if okt else f"the trailing layout is not 'ContentInfo || enc_content' exactly when the content is not in the envelope (returns {ps.text(v)[:100]} when blob_in_envelope is {inside})")
